@@ -26,6 +26,11 @@ def corpus():
         "pool.handles 3 2",
         # whole runs and whole command lines: every kind of failure stays in its iteration, the process survives —
         # also through a combined scenario, and also when the scenario log file cannot be opened
+        "cli mode=users dur=%s conc=2 bodyms=1 maxit=12 failevery=2 failkind=panicstr loglevel=silent" % hx("400ms"),       # C07m: a panic marks the iteration also when the caller's logger drops error records
+        "cli mode=users dur=%s conc=2 bodyms=1 maxit=12 failevery=1 failkind=nilmap loglevel=silent" % hx("400ms"),
+        "cli mode=constant rate=%s dist=%s dur=%s conc=2 bodyms=1 failevery=3 failkind=panicerr loglevel=silent" % (hx("3/100ms"), hx("none"), hx("400ms")),
+        "cli mode=users dur=%s conc=2 bodyms=1 maxit=12 failevery=2 failkind=panicstr logfmt=json loglevel=fatal" % hx("400ms"),   # C20n: … or F1_LOG_LEVEL names a level that says less
+        "cli mode=users dur=%s conc=1 bodyms=1 maxit=9 failevery=3 failkind=panicint logfmt=text loglevel=panic combine=1" % hx("400ms"),
         "run prop=C07 mode=users conc=2 dur=300 body=1 maxit=24 failevery=3 failkind=panicerr combine=1",
         "run prop=C07 mode=users conc=2 dur=300 body=1 maxit=24 failevery=2 failkind=nilmap combine=1",
         "run prop=C07 mode=constant rate=6/50ms dur=300 conc=3 body=2 failevery=4 failkind=timefail",
